@@ -308,40 +308,61 @@ def recipes(rnd, scale):
     return rc
 
 
+def model_checking(thorough):
+    """MC runs of the specification (run beside the trace validation); returns
+    [(name, result, must_hold, expected violation)]"""
+    out = []
+    w = 16 if thorough else 6
+    out.append(("MC_Phase_" + ("full" if thorough else "quick"),
+                tlc.run("MC_Phase", "MC_Phase_full.cfg" if thorough else "MC_Phase_quick.cfg", workers=w, timeout=3000),
+                True, None))
+    # MC-2: day_frac over the toy floating point, every pair of toy floats
+    out.append(("MC_DayFrac_" + ("full" if thorough else "quick"),
+                tlc.run("MC_DayFrac", "MC_DayFrac_full.cfg" if thorough else "MC_DayFrac_quick.cfg", workers=w,
+                        timeout=3000), True, None))
+    for mod, cfg, inv in NEGS:
+        out.append(("neg:" + cfg, tlc.run(mod, cfg, workers=2, timeout=600), False, inv))
+    return out
+
+
+NEGS = [("MC_Phase", "Neg_Phase_ii.cfg", "ImagRule"), ("MC_Phase", "Neg_Phase_np2.cfg", "ResultIsPhase"),
+        ("MC_DayFrac", "Neg_DayFrac_aswritten.cfg", "FracInRange"), ("MC_DayFrac", "Neg_DayFrac_nopass.cfg", "FracInRange"),
+        ("MC_DayFrac", "Neg_DayFrac_floor.cfg", "FracInRange")]
+
+
+def file_mc(chk, results):
+    ok = True
+    for name, r, must, inv in results:
+        if must:
+            chk.mc_must_hold(name, r)
+            ok = ok and r.ok
+        else:
+            chk.add_tlc(name, r)
+            if r.violation != inv:
+                chk.machinery_errors.append("%s: TLC should reject this variant with %s, got %r" % (name, inv, r.violation))
+    chk.exhaustive = ok
+    chk.notes["negative_configs_rejected"] = ["%s (%s)" % (c, i) for _, c, i in NEGS]
+
+
 def run(chk):
+    import concurrent.futures as cf
     rnd = random.Random(chk.seed)
     thorough = chk.tier == "thorough"
-    # 1. model checking of the specification
-    r = tlc.run("MC_Phase", "MC_Phase_full.cfg" if thorough else "MC_Phase_quick.cfg", timeout=3000)
-    chk.mc_must_hold("MC_Phase_" + ("full" if thorough else "quick"), r)
-    chk.exhaustive = r.ok
-    for cfg, inv in (("Neg_Phase_ii.cfg", "ImagRule"), ("Neg_Phase_np2.cfg", "ResultIsPhase")):
-        rn = tlc.run("MC_Phase", cfg, workers=4, timeout=600)
-        chk.add_tlc("neg:" + cfg, rn)
-        if rn.violation != inv:
-            chk.machinery_errors.append("%s: TLC should reject the pinned variant with %s, got %r"
-                                        % (cfg, inv, rn.violation))
-    # MC-2: day_frac over the toy floating point, every pair of toy floats
-    r = tlc.run("MC_DayFrac", "MC_DayFrac_full.cfg" if thorough else "MC_DayFrac_quick.cfg", timeout=3000)
-    chk.mc_must_hold("MC_DayFrac_" + ("full" if thorough else "quick"), r)
-    chk.exhaustive = chk.exhaustive and r.ok
-    negs = [("MC_DayFrac", c, "FracInRange") for c in ("Neg_DayFrac_aswritten.cfg", "Neg_DayFrac_nopass.cfg",
-                                                         "Neg_DayFrac_floor.cfg")]
-    for mod, cfg, inv in negs:
-        rn = tlc.run(mod, cfg, workers=4, timeout=600)
-        chk.add_tlc("neg:" + cfg, rn)
-        if rn.violation != inv:
-            chk.machinery_errors.append("%s: TLC should reject this variant with %s, got %r" % (cfg, inv, rn.violation))
-    chk.notes["negative_configs_rejected"] = ["Neg_Phase_ii.cfg (ImagRule)", "Neg_Phase_np2.cfg (ResultIsPhase)"] + \
-        ["%s (%s)" % (c, i) for _, c, i in negs]
-    # 2. trace validation of the real class
-    rcs = recipes(rnd, 16 if thorough else 1)
-    events, rejected = pd.validate(chk, rcs, "C07")
+    with cf.ThreadPoolExecutor(max_workers=1) as ex:
+        # 1. model checking of the specification (in the background)
+        mc = ex.submit(model_checking, thorough) if not thorough else None
+        if thorough:
+            file_mc(chk, model_checking(True))
+        # 2. trace validation of the real class
+        rcs = recipes(rnd, 16 if thorough else 1)
+        events, rejected = pd.validate(chk, rcs, "C07", procs=None if thorough else 8)
+        if mc is not None:
+            file_mc(chk, mc.result())
     for ev in events[:200:40]:
-        chk.sample({k: (v if k in ("ev", "op", "ord", "other", "fn") else "...") for k, v in ev.items() if k != "id"}
-                   | {"desc": pd.describe(ev, [])})
+        chk.sample({k: v for k, v in ev.items() if k in ("ev", "op", "ord", "other", "fn")} | {"desc": pd.describe(ev, [])})
     chk.notes["recipes"] = len(rcs)
-    chk.assumptions += ["TLC explores PhaseMachine exhaustively only on the 1/8-cycle lattice within the stated bounds",
+    chk.assumptions += ["TLC explores PhaseMachine exhaustively only on the 1/8-cycle lattice within the stated bounds, "
+                        "and day_frac only over the toy floating point (4/5-bit significands)",
                         "events are recorded outside the class (harness/phase_drv.py); exact.rat of float64 is exact",
                         "the kernel's CosSin is accurate to 1e-16 (self-tested in setup)"]
 
